@@ -5,7 +5,7 @@ PM = "pymarkdown/plugin_manager/plugin_manager.py::PluginManager."
 PSC = "pymarkdown/plugin_manager/plugin_scan_context.py::PluginScanContext."
 
 TRACE = {"trace": "List[Any]"}
-KEEP = "forall(lambda j: trace[j] == old(trace)[j], 0, old(len(trace)))"
+KEEP = "forall(lambda j: trace[j] == old(trace[j]), 0, old(len(trace)))"
 
 
 def appended(lst, event):
@@ -21,15 +21,18 @@ register(Contract(
     ensures=["len(self.__document_pragmas) == 0", "len(self.__document_pragma_ranges) == 0",
              "result.scan_file == file_being_started", "result.line_number == 0", "result.in_fix_mode == fix_mode",
              "len(result._PluginScanContext__reported) == 0", "result.last_line_fixed is None",
-             "result.current_fix_line is None", "result.owning_manager is self"]
+             "result.current_fix_line is None", "result.owning_manager is self",
+             "is_fresh(result)", "is_fresh(result._PluginScanContext__reported)",
+             "result._PluginScanContext__fix_token_map is fix_token_map",
+             "result._PluginScanContext__replace_token_list is replace_tokens_list"]
     + [f"implies(not constraint_id_list, {e})" for e in appended(SNF_LIST, f"('start', {SNF_LIST}[j].plugin_instance)")],
     raises=[Raises("BadPluginError")],
     modifies=["__document_pragmas", "__document_pragma_ranges", "$rule_state", "trace.$list"],
     loops={0: Loop(index="idx", invariant=[
         f"implies(not constraint_id_list, len(trace) == old(len(trace)) + idx)",
         f"implies(not constraint_id_list, forall(lambda j: trace[old(len(trace)) + j] == ('start', {SNF_LIST}[j].plugin_instance), 0, idx))",
-        KEEP, f"len({SNF_LIST}) == old(len({SNF_LIST}))",
-        f"forall(lambda j: {SNF_LIST}[j] == old({SNF_LIST})[j], 0, len({SNF_LIST}))",
+        KEEP, "len(trace) >= old(len(trace))", f"len({SNF_LIST}) == old(len({SNF_LIST}))",
+        f"forall(lambda j: {SNF_LIST}[j] == old({SNF_LIST}[j]), 0, len({SNF_LIST}))",
     ])},
 ))
 
@@ -41,33 +44,32 @@ FILE_WRITE = Assumed("TextIOWrapper.write", params=["text"], raises=[Raises("OSE
 
 def dispatcher(name, lst, event, extra_ensures=(), extra_inv=(), extra_mods=()):
     L = f"self.{lst}"
-    scan = "(old(not context_map) and not old(context).in_fix_mode)"
+    scan = "(context_map is None and not old(context).in_fix_mode)"
     sep = (f"context._PluginScanContext__reported is not {L} and context._PluginScanContext__fix_token_map is None "
            f"and context._PluginScanContext__replace_token_list is None")
     ev = event.replace("L[j]", f"{L}[j]")
     register(Contract(
         key=PM + name, properties=["C07", "C12", "C14", "C15"],
         ghost=TRACE,
-        requires=[f"implies(not context_map and not context.in_fix_mode, context.current_fix_line is None and {sep})"],
+        requires=[f"implies(context_map is None and not context.in_fix_mode, context.current_fix_line is None and {sep})"],
         ensures=[f"implies({scan}, {e})" for e in appended(L, ev)]
         + [f"implies({scan}, context.current_fix_line is None)"] + list(extra_ensures),
         # C07: whatever a rule callback raises, only BadPluginError leaves the dispatcher
-        raises=[Raises("BadPluginError")] + ([Raises("OSError", when="context_map or context.in_fix_mode"),
-                                             Raises("AssertionError", when="context_map or context.in_fix_mode")] if name != "next_token" else []),
+        raises=[Raises("BadPluginError")] + ([Raises("OSError", when="context_map is not None or context.in_fix_mode"),
+                                             Raises("AssertionError", when="context_map is not None or context.in_fix_mode")] if name != "next_token" else []),
         modifies=["$rule_state", "context._PluginScanContext__reported.$list", "trace.$list"] + list(extra_mods),
         # fix mode: the contexts of context_map, their fix maps / records / current line, the output file
-        cmodifies=[("context_map or context.in_fix_mode",
+        cmodifies=[("context_map is not None or context.in_fix_mode",
                     ["_PluginScanContext__current_fix_line", "_PluginScanContext__last_line_fixed", "line_number",
                      "$llen", "$litems", "$ddom", "$dval", "$dlen"])],
         calls={"context.file_output.write": FILE_WRITE},
         loops={0: Loop(index="idx", invariant=[
-            f"implies({scan}, not context_map)",
             f"implies({scan}, context is old(context))",
             f"implies({scan}, len(trace) == old(len(trace)) + idx)",
             f"implies({scan}, forall(lambda j: trace[old(len(trace)) + j] == {ev}, 0, idx))",
             f"implies({scan}, {KEEP})",
             f"implies({scan}, context.current_fix_line is None and {sep})",
-            f"implies({scan}, len({L}) == old(len({L})))", f"implies({scan}, forall(lambda j: {L}[j] == old({L})[j], 0, len({L})))",
+            f"implies({scan}, len({L}) == old(len({L})))", f"implies({scan}, forall(lambda j: {L}[j] == old({L}[j]), 0, len({L})))",
             f"implies({scan}, same_except('$list', old(context)._PluginScanContext__reported) and same_except('$dict') "
             f"and same_except('_PluginScanContext__current_fix_line') and same_except('_PluginScanContext__last_line_fixed') "
             f"and same_except('line_number', old(context)))",
@@ -77,11 +79,11 @@ def dispatcher(name, lst, event, extra_ensures=(), extra_inv=(), extra_mods=()):
 
 dispatcher("next_token", "__enabled_plugins_for_next_token", "('tok', L[j].plugin_instance, context, token)")
 dispatcher("next_line", "__enabled_plugins_for_next_line", "('line', L[j].plugin_instance, context, line_number, line)",
-           extra_ensures=["implies(old(not context_map) and not old(context).in_fix_mode, context.line_number == line_number)"],
-           extra_inv=["implies(old(not context_map) and not old(context).in_fix_mode, line is old(line))",
-                      "implies(old(not context_map) and not old(context).in_fix_mode, context.line_number == line_number)"],
+           extra_ensures=["implies(context_map is None and not old(context).in_fix_mode, context.line_number == line_number)"],
+           extra_inv=["implies(context_map is None and not old(context).in_fix_mode, line is old(line))",
+                      "implies(context_map is None and not old(context).in_fix_mode, context.line_number == line_number)"],
            extra_mods=["context.line_number"])
 dispatcher("completed_file", "__enabled_plugins_for_completed_file", "('done', L[j].plugin_instance, context, line_number)",
-           extra_ensures=["implies(old(not context_map) and not old(context).in_fix_mode, context.line_number == line_number)"],
-           extra_inv=["implies(old(not context_map) and not old(context).in_fix_mode, context.line_number == line_number)"],
+           extra_ensures=["implies(context_map is None and not old(context).in_fix_mode, context.line_number == line_number)"],
+           extra_inv=["implies(context_map is None and not old(context).in_fix_mode, context.line_number == line_number)"],
            extra_mods=["context.line_number"])
